@@ -137,7 +137,8 @@ class FitInfo(object):
         self.model_name = self.model_name[order]
         if self.model_fluxes is not None:
             self.model_fluxes = self.model_fluxes[order, :]
-        self.model_id = order
+        # (a result that has been sorted before already carries the indices)
+        self.model_id = order if self.model_id is None else self.model_id[order]
 
     def keep(self, select_format):
         """
